@@ -46,7 +46,7 @@ TABLE = [
     ("c01", ["C01", "C06", "C15"], "create_data_array (shape / element type resolution), DataSet.__getitem__ / __setitem__ / get_slice plumbing, "
                      "h5py selections, numpy conversion and polyval behind the calibrated reader: exact round trip, NumPy index "
                      "semantics on arrays and views, calibration on every read path and never on the stored values"),
-    ("c10", ["C10"], "Section.__getitem__ / __setitem__ / __delitem__ / __contains__ / __iter__ / items / __len__, Property.create_new and "
+    ("c10", ["C10"], "Section.__getitem__ / __setitem__ / __delitem__ / __iter__ / items (__contains__ / __len__ are under contract too), Property.create_new and "
                      "the values getter (summaries in the contracts), the h5py dataset behind a property"),
     ("c11", ["C11"], "File.__init__ (order of header check and first write), HDF5's enforcement of read-only / truncation: header "
                      "variants written with raw h5py, every mutating call on a read-only file"),
